@@ -660,7 +660,7 @@ def plan_C01(ctx):
     K = ctx.q(6, 12)
 
     def build(corp):
-        return build_c01_corpus(ctx, corp, ctx.q(250, 2500), ctx.q(300, 2000))
+        return build_c01_corpus(ctx, corp, ctx.q(250, 2500), ctx.q(500, 2400))
 
     extra = {
         "bounds": {"advances_K": K, "loop_bound_n": "[-1,3]", "ints": "64-bit symbolic a, b; guards g1..g3 symbolic",
@@ -678,7 +678,7 @@ def plan_C02(ctx):
     K = ctx.q(6, 12)
 
     def build(corp):
-        counts = build_c01_corpus(ctx, corp, ctx.q(150, 1500), ctx.q(300, 2000), sample_seed_off=2, transform=gen.effectify)
+        counts = build_c01_corpus(ctx, corp, ctx.q(150, 1500), ctx.q(450, 2000), sample_seed_off=2, transform=gen.effectify)
         xs = gen.exprform_programs()
         for p in xs:
             corp.add(p)
@@ -724,7 +724,7 @@ def plan_C18(ctx):
         for lst in exh[:ctx.q(100, 137)]:
             ctr = gen.Ctr()
             bodies.append(gen.concretize(lst, ctr, []))
-        bodies += gen.sampled(rng, ctx.q(250, 1600), 10)
+        bodies += gen.sampled(rng, ctx.q(400, 1600), 10)
         for name, body in directed_c01():
             if name in ("sw_break_after_yield", "continue_yield_post", "continue_yieldfrom_post", "tagless_switch", "yielding_switch_ends_loop"):
                 continue
@@ -793,7 +793,7 @@ def plan_C05(ctx):
         smp = gen.YFSampler(rng)
         bodies = [(name, body) for name, body in directed_c05()]
         tries = 0
-        want = ctx.q(200, 1500)
+        want = ctx.q(320, 1500)
         while len(bodies) < want + len(directed_c05()) and tries < want * 30:
             tries += 1
             ctr = gen.Ctr()
@@ -879,7 +879,7 @@ def plan_C03(ctx):
                 tags.add("range-var-captured-across-iterations")  # go < 1.22 sources: one variable per loop (F7)
             corp.add(gen.Program("d_%s" % name, body, helpers=C01_HELPERS if "H2(" in repr(body) else "", named_result=(n % 2 == 0), family="scp", tags=tags))
             n += 1
-        want = ctx.q(260, 2200)
+        want = ctx.q(400, 2200)
         tries = 0
         while n < want and tries < want * 20:
             tries += 1
@@ -1020,7 +1020,7 @@ def plan_C07(ctx):
     K = ctx.q(6, 12)
 
     def build(corp):
-        counts = build_c01_corpus(ctx, corp, ctx.q(137, 2000), ctx.q(220, 1500), sample_seed_off=7)
+        counts = build_c01_corpus(ctx, corp, ctx.q(137, 2000), ctx.q(320, 1500), sample_seed_off=7)
         # effect-instrumented sample (evaluation points visible)
         rng = random.Random(ctx.seed * 7 + 77)
         n = 0
